@@ -9,9 +9,12 @@ TEXT = {
  "C01": ("proof", "Lean theorems: the parser's IR refines canonical Brainfuck (both directions, prefix) for every program, input and width; arithmetic lemmas of the optimiser (trip count, closed forms); the optimiser as a whole is tied by exact-model correspondence and end-to-end comparison with the proved semantics", "5/C01"),
  "C04": ("proof", "Lean theorem inplace_* (Props/C04): the in-place interpreter model and the canonical semantics reach equal states for every balanced program, environment and width, termination reflected, prefix property, limited mode; model tied to src/exec/inplace.rs by differential correspondence on every run", "5/C04"),
  "C09": ("proof", "Lean theorems (Props/C09): Memory refines an unbounded zero-initialised array for every call history under an explicit 2^59 range guard; model tied to src/runtime.rs by call-history correspondence incl. (size, offset) after every call", "5/C09"),
+ "C11": ("proof", "Lean theorems (Props/C11): the executable contract checker BcWf.check is sound w.r.t. the bytecode semantics (no bad branch/form, window, temp indices, definite initialisation on every path, dead-after-instruction for undeclared registers); the verified checker is run on the exact bytecode produced for every sampled program at both generator settings", "5/C11"),
  "C12": ("proof", "Lean theorems (Props/C12): parser accepts iff balanced, error kind/position = declarative spec, comment and UTF-8 insensitivity, totality; model tied to Program::parse by structural IR/error correspondence", "5/C12"),
  "C14": ("proof", "Lean theorems (Props/C14) for every width w >= 1 and all operands: pow/inv/div contracts and conversion round trips; model tied to src/lib.rs exhaustively at 8 bit and on boundary/random operands at 16/32/64", "5/C14"),
  "C15": ("proof", "Lean theorems (Props/C15): value of add/mul/neg/half/normalize/substitution for all part lists; decompositions recompose under the normal form all constructors preserve; model tied to ir::Expr by operation-tree correspondence", "5/C15"),
+ "C16": ("proof", "Lean theorems (Props/C16) about the front-end model with the flag table regenerated from src/bin/hpbf.rs on every run (translator) and proved equal to the model; black-box comparison of the real binary with the model and the canonical semantics", "5/C16"),
+ "C17": ("proof", "Lean theorems (Props/C17): with a fallible allocator the tape-growth model aborts on failure and never continues; translator checks the null-check pattern at every alloc_zeroed site; fault injection (k-th allocation fails) on the real back ends observes abort, never a crash or wrong continuation", "5/C17"),
  "C18": ("proof", "Lean theorems (Props/C18): SmallVec refines Vec and drops each element exactly once for every capacity and history incl. abandoned by-value iterators; model tied to src/smallvec.rs by drop-tracking history correspondence", "5/C18"),
 }
 NOTE = "Trusted base: Lean 4.33 kernel with axioms propext/Classical.choice/Quot.sound only (audited every run); the hand-written model is tied to the code by differential correspondence (tested); rustc/std/CPU/OS modelled. See evidence file for the per-property scope and what is not proved."
